@@ -1,0 +1,119 @@
+//! Verification hooks for the relay transport (feature `verif-hooks` only).
+//!
+//! Builds a [`RelayTransport`] without a relay actor: the harness plays the actor by
+//! pushing into the receive queue and reading the send queue.
+
+use std::{
+    io,
+    task::{Context, Poll},
+};
+
+use iroh_base::{EndpointId, RelayUrl};
+use iroh_relay::protos::relay::Datagrams;
+use n0_future::task::{self, AbortOnDropHandle};
+use tokio::sync::mpsc;
+
+use super::{
+    HomeRelayWatch, RelaySender, RelayTransport,
+    actor::{RelayActorMessage, RelayRecvDatagram, RelaySendItem},
+};
+use crate::socket::transports::RecvInfo;
+
+/// A [`RelayTransport`] whose queues are owned by the harness instead of a relay actor.
+#[derive(Debug)]
+pub struct VerifRelayTransport {
+    transport: RelayTransport,
+    recv_tx: Option<mpsc::Sender<RelayRecvDatagram>>,
+    send_rx: mpsc::Receiver<RelaySendItem>,
+    _actor_rx: mpsc::Receiver<RelayActorMessage>,
+    recv_infos: Vec<RecvInfo>,
+}
+
+impl VerifRelayTransport {
+    /// Creates the transport.  `recv_capacity`/`send_capacity` are the queue sizes (the real
+    /// constructor uses 512 and 256).  Must be called inside a tokio runtime context.
+    pub fn new(recv_capacity: usize, send_capacity: usize) -> Self {
+        let (relay_datagram_send_tx, relay_datagram_send_rx) = mpsc::channel(send_capacity);
+        let (relay_datagram_recv_tx, relay_datagram_recv_rx) = mpsc::channel(recv_capacity);
+        let (actor_sender, actor_receiver) = mpsc::channel(256);
+        let my_endpoint_id = iroh_base::SecretKey::from_bytes(&[7u8; 32]).public();
+        let actor_handle = AbortOnDropHandle::new(task::spawn(async move {}));
+        let transport = RelayTransport {
+            relay_datagram_recv_queue: relay_datagram_recv_rx,
+            relay_datagram_send_channel: relay_datagram_send_tx,
+            pending_item: None,
+            actor_sender,
+            _actor_handle: actor_handle,
+            my_relay: HomeRelayWatch::default(),
+            my_endpoint_id,
+        };
+        Self {
+            transport,
+            recv_tx: Some(relay_datagram_recv_tx),
+            send_rx: relay_datagram_send_rx,
+            _actor_rx: actor_receiver,
+            recv_infos: Vec::new(),
+        }
+    }
+
+    /// Queues a received batch like the relay actor does (`try_send`).  Returns `false` if the
+    /// queue was full or closed (the actor drops the batch in that case).
+    pub fn push(&self, url: RelayUrl, src: EndpointId, datagrams: Datagrams) -> bool {
+        match &self.recv_tx {
+            Some(tx) => tx
+                .try_send(RelayRecvDatagram {
+                    url,
+                    src,
+                    datagrams,
+                })
+                .is_ok(),
+            None => false,
+        }
+    }
+
+    /// Drops the harness side of the receive queue (the actor is gone).
+    pub fn close_recv_queue(&mut self) {
+        self.recv_tx = None;
+    }
+
+    /// Calls [`RelayTransport::poll_recv`].  On `Ready(Ok(n))` the source of each of the `n`
+    /// filled slots is returned as `(url, endpoint id)`; `None` if the slot's receive info is
+    /// not a relay address.
+    pub fn poll_recv(
+        &mut self,
+        cx: &mut Context,
+        bufs: &mut [io::IoSliceMut<'_>],
+        metas: &mut [noq_udp::RecvMeta],
+    ) -> Poll<io::Result<Vec<Option<(RelayUrl, EndpointId)>>>> {
+        self.recv_infos.clear();
+        self.recv_infos.resize(bufs.len(), RecvInfo::default());
+        match self
+            .transport
+            .poll_recv(cx, bufs, metas, &mut self.recv_infos)
+        {
+            Poll::Pending => Poll::Pending,
+            Poll::Ready(Err(err)) => Poll::Ready(Err(err)),
+            Poll::Ready(Ok(n)) => Poll::Ready(Ok(self.recv_infos[..n.min(self.recv_infos.len())]
+                .iter()
+                .map(|info| match info.remote() {
+                    crate::socket::transports::Addr::Relay(url, id) => Some((url.clone(), *id)),
+                    _ => None,
+                })
+                .collect())),
+        }
+    }
+
+    /// Creates a sender feeding this transport's send queue.
+    pub(crate) fn create_sender(&self) -> RelaySender {
+        self.transport.create_sender()
+    }
+
+    /// Takes the next item the transport's senders put on the send queue, if any:
+    /// `(relay url, destination endpoint, datagrams)`.
+    pub fn try_next_sent(&mut self) -> Option<(RelayUrl, EndpointId, Datagrams)> {
+        self.send_rx
+            .try_recv()
+            .ok()
+            .map(|item| (item.url, item.remote_endpoint, item.datagrams))
+    }
+}
